@@ -24,11 +24,8 @@ def runPhases (u : UC) (stmts : List Stmt) : List Phase → BState → Except Bu
     | .error e => .error e
 
 theorem build_eq_runPhases (u : UC) (stmts : List Stmt) :
-    build u stmts = if touchesInternals stmts then .error .unmodelled
-      else runPhases u stmts Gen.BuildShape.populateOrder BState.empty := by
-  unfold build
-  congr 1
-  unfold buildPhases buildCore
+    build u stmts = runPhases u stmts Gen.BuildShape.populateOrder BState.empty := by
+  unfold build buildPhases buildCore
   simp only [Gen.BuildShape.populateOrder, runPhases, phaseFn]
   cases popClasses u stmts BState.empty with
   | error e => rfl
